@@ -42,6 +42,7 @@ MDesc == /\ Consume("desc") /\ Ev.ok
          /\ ~Ev.hassecret /\ ~Ev.secretin
          /\ Ev.openedmeta = 0 /\ Ev.openedhdr = 0 /\ Ev.openedpayload = 0
          /\ Ev.pksame /\ Ev.addrmeta /\ Ev.addrmsg
+         /\ Ev.descjoin = 0 /\ Ev.descgrew = 0      \* a descriptor (no signed secret) is never accepted as an invitation
          /\ UNCHANGED naccepted
 
 MNext == MReset \/ MJoin \/ MJoinFlips \/ MJoinBase \/ MDesc
